@@ -4,7 +4,7 @@ Engine A state invariant over BFS pools with well-formed roles and verbatim (mul
 invalid, unknown-code) settings.
 """
 from .. import env
-from ..env import AnsiString, AnsiStr
+from ..env import AnsiString, AnsiStr, AnsiSetting
 from .. import model, explore, refterm as rt
 from ..hist import build
 
@@ -54,13 +54,22 @@ def check_value(v):
         return [('render-raises', 'str(v) raised %s: %s' % (type(e).__name__, e))], wellformed
     # (1) round trip
     if wellformed:
-        for cls in (AnsiString, AnsiStr):
+        for nth, cls in enumerate((AnsiString, AnsiStr, AnsiString)):
             try:
                 r = cls(s)
                 t2, c2 = model.alpha_codes(r)
             except Exception as e:  # noqa
                 bad.append(('roundtrip-raises', '%s(str(v)) raised %s: %s' % (cls.__name__, type(e).__name__, e)))
                 continue
+            if nth == 0:
+                # the first re-parsed object is then edited in place: the later parses of the same text (nth = 1, 2) must
+                # not see anything of that
+                for edit in (lambda: r.apply_formatting(AnsiSetting('35')), lambda: r.__iadd__(s),
+                             lambda: r.remove_formatting(None, 0, 1)):
+                    try:
+                        edit()
+                    except Exception:  # noqa
+                        pass
             if t2 != text:
                 bad.append(('roundtrip-text', '%s(str(v)).base_str %r != %r' % (cls.__name__, t2, text)))
                 continue
